@@ -90,3 +90,10 @@ claim(
     "Trusted: python ast, bfsa, spec/bf2_tagtypes.json (domain table pinned at the analysed commit).",
     "DESIGN.md section 4, C13",
 )
+claim(
+    "C12", "other",
+    "structural comparison of str.format templates with the parser's regular expressions (both parsed to item sequences); nullability (shape) analysis of constructor-mapped fields before numeric format specs; anchoring and overlap analysis of the ordered regex alternatives; exception-conversion rule for naming lookups",
+    "Decides: both text forms are printed and parsed with the same widths, zero padding, separators and field order, every regex group feeds the attribute printed at its position (device settings print the literal 0000 exactly when device == 0), the optional ' ' + name suffix corresponds to the optional group; both patterns must match the whole text; customer / project / device (None when the unknown code 9999) are guarded or mapped back before a numeric format spec; text matching neither form raises ConfigIdFormatError; missing naming values are converted to the documented Missing*NameError and fields come from the documented 0x0620 keys; equality compares all five fields. The overlap of the two text forms (a name-only identifier whose name looks numeric) is reported as a known finding. Exhaustive numeric ranges are not enumerated.",
+    "Trusted: python ast, bfsa, python's own regex parser (re._parser) and string.Formatter for parsing the literal patterns/templates.",
+    "DESIGN.md section 4, C12",
+)
